@@ -329,19 +329,22 @@ impl Read for SimSource {
             }
         }
         // refill from the endless tail if the finite part is exhausted
-        if src!().pos >= src!().data.len() {
+        if src!().pos + asked > src!().data.len() {
             if let Some(en) = src!().endless.clone() {
-                if src!().data.len() > src!().byte_budget {
+                if src!().pos >= src!().data.len() && src!().data.len() > src!().byte_budget {
                     abort(
                         &self.w,
                         g,
                         "endless source: byte budget exhausted (jawk keeps reading)".into(),
                     );
                 }
-                let k = src!().endless_k;
-                src!().endless_k += 1;
-                let rec = en.record(k);
-                src!().data.extend_from_slice(&rec);
+                // an endless producer always has data ready: fill the whole request
+                while src!().pos + asked > src!().data.len() {
+                    let k = src!().endless_k;
+                    src!().endless_k += 1;
+                    let rec = en.record(k);
+                    src!().data.extend_from_slice(&rec);
+                }
             }
         }
         let avail = src!().data.len() - src!().pos;
